@@ -2,6 +2,7 @@
 import json
 import os
 import random
+import zlib
 
 import common
 import gen_prog
@@ -56,7 +57,7 @@ def shrink_case(b, c, still_fails):
 def run_semantic(res, b, tier, seed, prop, make_cfgs, transform=None, n_quick=400, n_thorough=6000, extra_oracle=None,
                  classify=None):
     """make_cfgs(tier) -> list of (weight, Cfg).  classify(case, kind, detail) -> known-finding id or None."""
-    rng = random.Random(seed * 1000003 + hash(prop) % 1000)
+    rng = random.Random(seed * 1000003 + zlib.crc32(prop.encode()) % 1000)   # (the built-in hash of a string differs from process to process)
     pr = common.prove(prop)
     common.proof_coverage(res, pr)
     if b.harness_error or b.model_error:
@@ -133,9 +134,13 @@ def run_semantic(res, b, tier, seed, prop, make_cfgs, transform=None, n_quick=40
         correspondence=dict(stage="AST and bash script of the whole model pipeline (Model.Lexer, Model.Parser, Model.Transpile, Model.ConvBash) vs the implementation", compared=ncases, disagreements=len(dis)),
         generator_distribution=dict(statement_kinds=kinds, lines_printed=printed, exit_1=exit1),
         oracle_failures=len(fails),
-        semantic_models=dict(semcheck.SEM_STATS, rule="Lean Sem/Src (meaning of the AST) vs the reference interpreter, Lean Sem/Bash (meaning of the emitted "
-                             "lines) vs /bin/bash, on every generated program inside the scalar fragment; both = programs on which "
-                             "the two models were also compared with each other (instances of the semantic-preservation theorem)"),
+        semantic_models=dict(semcheck.SEM_STATS, rule="the Lean source semantics (Sem2/Src, and Sem/Src on the scalar fragment) vs the reference interpreter; "
+                             "the Lean bash models (Sem2/Bash, Sem/Bash) vs /bin/bash on the emitted script; src_supported / "
+                             "sh_supported = programs the models with functions can run; both = programs on which the two "
+                             "models were also compared with each other; in_theorem_fragment = programs in the fragment of "
+                             "C01.bash_preserves_scalar_semantics, in_function_theorem_fragment = programs in the fragment of "
+                             "C02.bash_preserves_semantics_with_functions (instances of the theorems: a program of a fragment "
+                             "that runs in the source semantics must run to the same result in the bash model)"),
     ))
     res.assumptions += ["the Python reference interpreter states the Go meaning (README caveats) correctly",
                         "/bin/bash 5.2 in the sandbox is the interpreter of the emitted script"]
